@@ -130,15 +130,23 @@ func VerifC06_batchV2() {
 	var shapes [2]int
 	tsWidth := 1
 	if verifThorough() {
-		tsWidth = 1 + verifChoose(2)
-		for i := 0; i < nrec; i++ {
-			shapes[i] = verifChoose(verifNumRecShapes)
+		// one record: 5 shapes x 1- or 2-byte timestamp delta; two records: all 16 pairs of
+		// the first 4 shapes
+		if nrec == 2 {
+			shapes = [2]int{verifChoose(4), verifChoose(4)}
+			verifAssume(cfg.isolation == 0)
+		} else {
+			shapes[0] = verifChoose(verifNumRecShapes)
+			tsWidth = 1 + verifChoose(2)
 		}
 	} else {
 		// quick: every shape for one record; for two records the four shape pairs (i, i+1)
 		shapes[0] = verifChoose(4)
 		shapes[1] = (shapes[0] + 1) % 4
 		verifAssume(cfg.isolation == 0)
+		if nrec == 2 {
+			verifAssume(!cfg.disableCRC)
+		}
 	}
 	u := verifC06SymBatch(nrec, shapes, tsWidth)
 	data := u.encode(nil)
@@ -208,19 +216,26 @@ func VerifC06_mixed() {
 	verifAssume(cfg.isolation == 0)
 	verifAssume(cfg.disableCRC)
 	var kinds []int
+	plain := !verifThorough() // only CreateTime data batches
 	if verifThorough() {
-		n := 2 + verifChoose(2)
-		for i := 0; i < n; i++ {
-			kinds = append(kinds, verifChoose(verifNumKinds))
+		// every pair with free attributes; every triple of {v1 message, 1-record batch, empty
+		// batch} with CreateTime data batches
+		if verifChoose(2) == 0 {
+			kinds = []int{verifChoose(verifNumKinds), verifChoose(verifNumKinds)}
+		} else {
+			pick := [3]int{verifKindV1, verifKindBatch1, verifKindBatchEmpty}
+			kinds = []int{pick[verifChoose(3)], pick[verifChoose(3)], pick[verifChoose(3)]}
+			plain = true
 		}
 	} else if verifChoose(2) == 0 {
-		// every ordered pair of kinds
-		kinds = []int{verifChoose(verifNumKinds), verifChoose(verifNumKinds)}
+		// ten ordered pairs of kinds: every kind first and second, with two different partners
+		first := verifChoose(verifNumKinds)
+		kinds = []int{first, (first + 1 + 2*verifChoose(2)) % verifNumKinds}
 	} else {
-		// three units: first and last from {v1 message, 1-record batch}, the middle one also
-		// an empty batch
+		// three units: first from {v1 message, 1-record batch}, then one of these or an empty
+		// batch, then a 1-record batch
 		pick := [3]int{verifKindV1, verifKindBatch1, verifKindBatchEmpty}
-		kinds = []int{pick[verifChoose(2)], pick[verifChoose(3)], pick[verifChoose(2)]}
+		kinds = []int{pick[verifChoose(2)], pick[verifChoose(3)], verifKindBatch1}
 	}
 	var units []*verifRefUnit
 	var data []byte
@@ -229,7 +244,7 @@ func VerifC06_mixed() {
 		u := verifC06Unit(k, i)
 		verifAssume(u.firstOffset() > prevLast)
 		prevLast = u.lastOffset()
-		if u.magic == 2 && !verifThorough() {
+		if u.magic == 2 && plain {
 			verifAssume(u.attrs&0x28 == 0) // control batches, LogAppendTime: VerifC06_batchV2
 		}
 		units = append(units, u)
